@@ -384,6 +384,7 @@ pub fn check(res: &RunResult, cfg: &NodeCfg, model: &mut Model) -> Findings {
                 }
                 if q.q == "find_node" {
                     check_families(&mut f, q, r, cfg.v6);
+                    check_node_count(&mut f, q, r, cfg, t);
                 }
             }
             "get_peers" => {
@@ -398,6 +399,7 @@ pub fn check(res: &RunResult, cfg: &NodeCfg, model: &mut Model) -> Findings {
                     other => f.items.push(("C05", "get_peers-reply-without-20-byte-token".into(), format!("token {:?}", other.as_ref().map(|t| t.len())))),
                 }
                 check_families(&mut f, q, r, cfg.v6);
+                check_node_count(&mut f, q, r, cfg, t);
                 // values: only the requester's family (C05); exactly the live pairs (C07)
                 if r.values.iter().any(|a| a.is_ipv4() != src.is_ipv4()) || r.values_malformed {
                     f.items.push(("C05", "values-of-other-family".into(), format!("requester {} got {:?}", src, r.values)));
@@ -485,6 +487,23 @@ pub fn check(res: &RunResult, cfg: &NodeCfg, model: &mut Model) -> Findings {
         }
     }
     f
+}
+
+/// With 9 responsive contacts the table holds 9 nodes of the node's own family from shortly after
+/// start: a reply that may list that family must list exactly 8 of them (C09).
+fn check_node_count(f: &mut Findings, q: &Parsed, r: &Parsed, cfg: &NodeCfg, t: u64) {
+    if cfg.table != 9 || t < 900 {
+        return;
+    }
+    let (w4, w6) = (q.want.iter().any(|w| w == "n4"), q.want.iter().any(|w| w == "n6"));
+    let own_wanted = if !w4 && !w6 { true } else if cfg.v6 { w6 } else { w4 };
+    if !own_wanted {
+        return;
+    }
+    let n = if cfg.v6 { r.nodes6.len() } else { r.nodes.len() };
+    if n != 8 {
+        f.items.push(("C09", "reply-node-count-not-min-8-n".into(), format!("{} (want {:?}) at {} ms lists {} nodes of the node's family although its table holds 9", q.q, q.want, t, n)));
+    }
 }
 
 fn check_families(f: &mut Findings, q: &Parsed, r: &Parsed, node_v6: bool) {
